@@ -56,12 +56,16 @@ def run(chk, tier):
         ("map", ["n1", "c3", "n2", "c2"], ["v1"], 1, 3),
     ]
     if thorough:
+        # (the walker holds the whole labelled graph: these graphs need 4-13 GB; one walker process runs at a time)
+        os.environ["VERIF_WALK_MEM_GB"] = "20"
         plans = [
             # (4 keys x 4 live entries x 2 cursors was measured at > 18 GB per walker process and did not finish in 25 min)
             # (2 values x 4 live entries x 2 cursors: the walker of this one graph needed > 10 GB under load)
-            ("map", ["n1", "s1", "z"], ["v1", "v2"], 3, 3),
+            # (3 cursors x 2 values x 3 live entries: the walker's graph alone exceeded its memory budget)
+            ("map", ["n1", "s1", "z"], ["v1", "v2"], 2, 3),
+            ("map", ["n1", "s1", "z"], ["v1"], 3, 3),
             ("set", ["nan", "sl", "o1"], ["v"], 2, 4),
-            ("map", ["su", "y1", "big"], ["v1", "v2"], 3, 3),
+            ("map", ["su", "y1", "big"], ["v1", "v2"], 2, 3),
             ("set", ["slu", "s1", "u"], ["v"], 2, 3),
             ("set", ["n1", "c3", "n2", "c2"], ["v"], 2, 3),
             ("map", ["n1", "c3", "z"], ["v1", "v2"], 2, 3),
